@@ -44,7 +44,10 @@ def main(rep: Report, replay: dict | None, which=("A", "C", "B"), pair=False) ->
         return
     depth = 5 if rep.tier == "quick" else 7
     for name in which:
-        g = iter_replay.model_check(rep, name, depth if name != "C" else min(depth, 6))
+        d = depth if name != "C" else min(depth, 6)
+        if which == ("B",) and rep.tier == "quick":
+            d = 6  # C09: one level deeper, so that "cache under X, change X, revisit" fits
+        g = iter_replay.model_check(rep, name, d)
         if g is not None:
             iter_replay.replay(rep, name, g, pair=pair and name == "B")
     iter_traces.run(rep, n_traces=300 if rep.tier == "quick" else 20000, pair=pair)
